@@ -365,7 +365,16 @@ def judge_cases(mod, cases, obss):
     verdicts = [None] * len(cases)
     for i, (c, o) in enumerate(zip(cases, obss)):
         if "harness_exception" in o:
-            raise Infra(f"harness failed on case {json.dumps(c)[:500]}:\n{o.get('trace')}")
+            # Resource failures are infrastructure (exit 2).  Anything else means the implementation behaved in a
+            # way the harness could not even observe (it never does on the unchanged tree): the correspondence
+            # obligation of this case is broken -> `disagree` (search for a failing input, else
+            # `VIOLATION … no-failing-input-found` naming this obligation), never a silent pass, never a crash.
+            if o["harness_exception"] in ("other:MemoryError", "other:OSError", "other:TimeoutError",
+                                          "other:BrokenProcessPool", "other:KeyboardInterrupt"):
+                raise Infra(f"harness failed on case {json.dumps(c)[:500]}:\n{o.get('trace')}")
+            verdicts[i] = {"status": "disagree", "clause": "implementation-could-not-be-observed:" + o["harness_exception"],
+                           "trace": (o.get("trace") or "")[-1500:]}
+            continue
         r = mod.lean_request(c, o)
         if r is None:
             verdicts[i] = mod.judge(c, o, None)
@@ -504,7 +513,11 @@ def run_check(prop: str, tier: str, seed: int, replay: str | None = None) -> int
         # correspondence broken, Holds true on everything explored so far: widen the search
         found = None
         if hasattr(mod, "widen") and not replay:
-            extra = list(mod.widen(rng, [cases[i] for i in disagree[:5]]))
+            try:
+                extra = list(mod.widen(rng, [cases[i] for i in disagree[:5]]))
+            except Exception:  # a widening generator that cannot digest the case must not hide the report
+                traceback.print_exc(file=sys.stderr)
+                extra = []
             eo = run_cases(modname, extra, workers)
             ev = judge_cases(mod, extra, eo)
             for c, o, v in zip(extra, eo, ev):
@@ -532,6 +545,9 @@ def run_check(prop: str, tier: str, seed: int, replay: str | None = None) -> int
     nontrivial = set()
     dist: dict[str, int] = {}
     for c, o in zip(cases, obss):
+        if "harness_exception" in o:
+            dist["unobservable_case"] = dist.get("unobservable_case", 0) + 1
+            continue
         for tag in _call_opt_answer(mod.tags, c, o):
             dist[tag] = dist.get(tag, 0) + 1
         if _call_opt_answer(mod.nontrivial, c, o):
